@@ -53,7 +53,7 @@ def gen_filter(rng, pop, ms_only, target=None):
         if ms_only:
             v = {'$ts': tsparse.trunc_ms(us), 'd': 3}
         else:
-            v = rng.choice([{'$ts': us, 'd': None}, {'$ts': us, 'd': 6}, {'$ts': us, 'd': 'min3'}, {'$dt': us}])
+            v = rng.choice([{'$ts': us, 'd': None}, {'$ts': us, 'd': 6}, {'$ts': us, 'd': 'min3'}, {'$dt': us}, {'$dt': us, 'off': rng.choice([330, -480, 60])}])
         return {'p': p, 'o': op, 'v': v}
     hit = rng.choice(vals) if vals and rng.random() < 0.75 else _near(rng, p, rng.choice(vals) if vals else 'x')
     if p in LISTY:
@@ -223,7 +223,7 @@ class C12(Profile):
         d = content12(sw.pool, k, j)
         for store in ('M', 'F'):
             if op['as'] == 'obj' and sw.pool[k]['kind'] != 'unreg':
-                o = call(sw.stix2.parse, C._copy(d), allow_custom=True)
+                o = call(sw.stix2.parse, sw.with_offset_datetimes(C._copy(d), sw.pool[k], k + j), allow_custom=True)
                 if not o.ok:
                     world.stat('build_failed')
                     return
@@ -253,7 +253,10 @@ class C12(Profile):
                 v = tsparse.fmt(v['$ts'], digits=d)
         elif isinstance(v, dict) and '$dt' in v:
             import pytz
+            off = v.get('off')
             v = dt.datetime(1970, 1, 1, tzinfo=pytz.UTC) + dt.timedelta(microseconds=v['$dt'])
+            if off:
+                v = v.astimezone(dt.timezone(dt.timedelta(minutes=off)))      # the same instant, given with a UTC offset
         return sw.stix2.Filter(f['p'], f['o'], v)
 
     def ref_triple(self, f):
